@@ -19,6 +19,7 @@ package main
 
 import (
 	"context"
+	"encoding/binary"
 	"fmt"
 	"os"
 	"path/filepath"
@@ -456,6 +457,56 @@ func chanNodes(o vh.Opts, g gen) *vh.Channel {
 	return ch
 }
 
+// chanRangeGo: node.NewRange called at most `fuel` times vs RangeGo.drain (nodeRange with Go's int / uint32), at the
+// uint32 borders included: ascending up to MaxUint32 and descending down to 0 the real node wraps and never ends.
+func chanRangeGo(o vh.Opts, g gen) *vh.Channel {
+	ch := vh.NewChannel("node.rangego", "node.NewRange(lo, hi, reverse).Next called <= fuel times vs RangeGo.drain (cur int, uint32(cur)): all lo,hi in {0..3} and in {MaxUint32-3..MaxUint32} x both directions x fuel 0..6, plus random; output = values and whether the end was reported; non-trivial = the node wrapped (no end within fuel although hi-lo+2 <= fuel)")
+	ch.Exhaustive = true
+	one := func(rev bool, lo, hi uint32, fuel int) {
+		impl := safely(func() string {
+			n := node.NewRange(lo, hi, rev)
+			var vals []uint32
+			ended := false
+			for i := 0; i < fuel; i++ {
+				v, ok := n.Next()
+				if !ok {
+					ended = true
+					break
+				}
+				vals = append(vals, v)
+			}
+			return fmt.Sprintf("ok %s %s", vh.JoinInts(vals), vh.B(ended))
+		})
+		wrapped := strings.HasSuffix(impl, " 0") && lo <= hi && int64(hi)-int64(lo)+2 <= int64(fuel)
+		tag := "ended"
+		if wrapped {
+			tag = "wrapped"
+		}
+		ch.Add(fmt.Sprintf("rangego %s %d %d %d", dir(rev), lo, hi, fuel), impl, wrapped, tag, "dir="+dir(rev))
+	}
+	const m = 4294967295
+	for _, rev := range []bool{false, true} {
+		for _, base := range []uint32{0, m - 3} {
+			for lo := base; lo-base <= 3; lo++ {
+				for hi := base; hi-base <= 3; hi++ {
+					for fuel := 0; fuel <= 6; fuel++ {
+						one(rev, lo, hi, fuel)
+					}
+				}
+			}
+		}
+	}
+	for i := 0; i < o.Pick(500, 5000); i++ {
+		lo := uint32(g.r.Intn(40))
+		if g.r.Bool() {
+			lo = m - uint32(g.r.Intn(40))
+		}
+		hi := lo + uint32(g.r.Intn(30)) - 5
+		one(g.r.Bool(), lo, hi, g.r.Intn(45))
+	}
+	return ch
+}
+
 func chanOrTree(o vh.Opts, g gen) *vh.Channel {
 	ch := vh.NewChannel("node.ortree", "node.BuildORTree over k static lists (k = 0..9, overlapping) vs EvalTree.treeFold; non-trivial = k >= 2")
 	n := o.Pick(3000, 20000)
@@ -668,6 +719,9 @@ func chanEvalTree(o vh.Opts, g gen) *vh.Channel {
 type doc struct {
 	id   seq.ID
 	toks [][2]string
+	// nested metas of the document (nested mapping type): each shares the ID, has Size 0, carries `_all_`, its own
+	// tokens and a copy of the parent's tokens - exactly what proxy/bulk indexer.Index produces
+	nested [][][2]string
 }
 
 func (g gen) docTokens() [][2]string {
@@ -885,6 +939,15 @@ func (e *env) newActive(docs []doc, bulkSize int, afterBulk func(a *frac.Active,
 			toks = append(toks, seq.Token{Field: []byte(t[0]), Val: []byte(t[1])})
 		}
 		dp.Append([]byte(fmt.Sprintf(`{"i":%d}`, i)), nil, d.id, toks)
+		for _, n := range d.nested { // as indexer.appendNestedMeta: same ID, Size 0, right after the parent
+			md := frac.MetaData{ID: d.id, Size: 0}
+			for _, t := range n {
+				md.Tokens = append(md.Tokens, frac.MetaToken{Key: []byte(t[0]), Value: []byte(t[1])})
+			}
+			buf := md.MarshalBinaryTo(make([]byte, 4))
+			binary.LittleEndian.PutUint32(buf, uint32(len(buf)-4))
+			dp.Metas = append(dp.Metas, buf...)
+		}
 		if dp.DocCount >= bulkSize {
 			if err := flush(); err != nil {
 				return nil, "", err
@@ -922,16 +985,35 @@ func searchFrac(f frac.Fraction, ast *parser.ASTNode, w window) string {
 // nonEmpty: the answer carries at least one id
 func nonEmpty(impl string) bool { return strings.HasPrefix(impl, "ok ") && !strings.HasPrefix(impl, "ok - ") }
 
-func docsString(docs []doc) string {
+// docsString renders one entry per meta (a nested meta is an entry of its own with the parent's ID).
+func docsString(docs []doc) string { return docsStringM(docs, "") }
+
+// docsStringM: nested entries carry the given marker (replay files use "+", the driver gets none).
+func docsStringM(docs []doc, marker string) string {
 	var parts []string
-	for _, d := range docs {
+	entry := func(pre string, id seq.ID, toks [][2]string) {
 		var ts []string
-		for _, t := range d.toks {
+		for _, t := range toks {
 			ts = append(ts, hx(t[0])+"="+hx(t[1]))
 		}
-		parts = append(parts, fmt.Sprintf("%d:%d:%s", uint64(d.id.MID), uint64(d.id.RID), vh.JoinStrs(ts, "&")))
+		parts = append(parts, fmt.Sprintf("%s%d:%d:%s", pre, uint64(id.MID), uint64(id.RID), vh.JoinStrs(ts, "&")))
+	}
+	for _, d := range docs {
+		entry("", d.id, d.toks)
+		for _, n := range d.nested {
+			entry(marker, d.id, n)
+		}
 	}
 	return vh.JoinStrs(parts, ";")
+}
+
+func hasNested(docs []doc) bool {
+	for _, d := range docs {
+		if len(d.nested) > 0 {
+			return true
+		}
+	}
+	return false
 }
 
 func parseDocs(s string) ([]doc, error) {
@@ -940,6 +1022,8 @@ func parseDocs(s string) ([]doc, error) {
 		return nil, nil
 	}
 	for _, p := range strings.Split(s, ";") {
+		isNested := strings.HasPrefix(p, "+")
+		p = strings.TrimPrefix(p, "+")
 		f := strings.SplitN(p, ":", 3)
 		if len(f) != 3 {
 			return nil, fmt.Errorf("bad doc %q", p)
@@ -960,6 +1044,10 @@ func parseDocs(s string) ([]doc, error) {
 				v, _ := unhx(kv[1])
 				d.toks = append(d.toks, [2]string{k, v})
 			}
+		}
+		if isNested && len(docs) > 0 {
+			docs[len(docs)-1].nested = append(docs[len(docs)-1].nested, d.toks)
+			continue
 		}
 		docs = append(docs, d)
 	}
@@ -989,6 +1077,35 @@ func (g gen) corpus(n, maxMid int) []doc {
 	return docs
 }
 
+// nestedCorpus: like corpus, about half of the documents carry 1..3 nested metas (field "s")
+func (g gen) nestedCorpus(n, maxMid int) []doc {
+	docs := g.corpus(n, maxMid)
+	for i := range docs {
+		if g.r.Bool() {
+			continue
+		}
+		for k := g.r.Range(1, 3); k > 0; k-- {
+			t := [][2]string{{"_all_", ""}}
+			for j := g.r.Range(1, 2); j > 0; j-- {
+				t = append(t, [2]string{"s", g.pick(textVocab)})
+			}
+			docs[i].nested = append(docs[i].nested, append(t, docs[i].toks[1:]...))
+		}
+	}
+	return docs
+}
+
+// nestedLeaf: leaves over the nested field "s" next to the usual ones
+func (g gen) nestedLeaf() *parser.ASTNode {
+	if g.r.Chance(1, 3) {
+		if g.r.Bool() {
+			return lit("s", g.pick(textVocab))
+		}
+		return lit("s", "*")
+	}
+	return g.leaf()
+}
+
 // step: one question asked when `n` documents of the corpus had been ingested (n = len(docs): final state).
 type step struct {
 	n   int
@@ -1007,7 +1124,7 @@ type history struct {
 }
 
 func (h *history) lines() []string {
-	ls := []string{fmt.Sprintf("corpus %d %s", h.bulk, docsString(h.docs))}
+	ls := []string{fmt.Sprintf("corpus %d %s", h.bulk, docsStringM(h.docs, "+"))}
 	for _, s := range h.steps {
 		ls = append(ls, fmt.Sprintf("ask %d %s %s", s.n, s.w, s.enc))
 	}
@@ -1075,7 +1192,7 @@ func runCorpus(e *env, h *history, act *vh.Channel) ([]sysCase, error) {
 	ask := func(a *frac.Active, s step, kind string) {
 		impl := searchFrac(a, s.ast, s.w)
 		cases = append(cases, sysCase{kind: kind, n: s.n, w: s.w, query: s.enc, docs: docsString(docs[:s.n]), impl: impl, h: h})
-		if act != nil {
+		if act != nil && !hasNested(docs) {
 			act.Add(activeRequest(a, docs[:s.n], s.w, s.enc), impl, nonEmpty(impl), append(s.w.tags(), "when="+kind)...)
 		}
 	}
@@ -1216,6 +1333,9 @@ func main() {
 		if want("node.merge") {
 			rep.AddChannel(chanNodes(o, gen{rng0.Fork()}), o.Driver)
 		}
+		if want("node.rangego") {
+			rep.AddChannel(chanRangeGo(o, gen{vh.NewRNG(o.Seed + 77)}), o.Driver)
+		}
 		if want("node.ortree") {
 			rep.AddChannel(chanOrTree(o, gen{rng0.Fork()}), o.Driver)
 		}
@@ -1253,6 +1373,26 @@ func main() {
 					ws = append(ws, g.window(maxMid, n))
 				}
 				cs, err := runCorpus(e, plan(g, docs, g.r.Range(1, 25), qs, ws, true), actCh)
+				if err != nil {
+					orc.Error = err.Error()
+					break
+				}
+				sys = append(sys, cs...)
+			}
+			// corpora with nested metas (several LIDs per ID): compared with Spec.search over the *metas*
+			// (c02_nested_result); how often `total` differs from the number of matching documents is recorded
+			gn := gen{g.r.Fork()}
+			for c := 0; c < o.Pick(60, 600) && orc.Error == ""; c++ {
+				n := gn.r.Range(1, 30)
+				maxMid := gn.r.Range(1, 6)
+				docs := gn.nestedCorpus(n, maxMid)
+				var qs []*parser.ASTNode
+				var ws []window
+				for k := 0; k < 6; k++ {
+					qs = append(qs, gn.ast(gn.r.Range(0, 3), gn.nestedLeaf))
+					ws = append(ws, gn.window(maxMid, n))
+				}
+				cs, err := runCorpus(e, plan(gn, docs, gn.r.Range(1, 12), qs, ws, true), nil)
 				if err != nil {
 					orc.Error = err.Error()
 					break
@@ -1304,15 +1444,60 @@ func main() {
 		for i, c := range sys {
 			reqs[i] = fmt.Sprintf("spec.search %s %s %s", c.w, c.docs, c.query)
 		}
+		// for corpora with nested metas and a requested total: the number of matching *documents* = number of
+		// distinct matching IDs = length of the Spec's id list with an unreachable limit
+		var nestedIdx []int
+		for i, c := range sys {
+			if c.h != nil && hasNested(c.h.docs) && c.w.withTotal {
+				nestedIdx = append(nestedIdx, i)
+				w := c.w
+				w.limit = 1 << 40
+				reqs = append(reqs, fmt.Sprintf("spec.search %s %s %s", w, c.docs, c.query))
+			}
+		}
 		spec, err := vh.AskDriver(o.Driver, reqs)
 		if err != nil {
 			orc.Error = err.Error()
 		} else {
+			nestedDiff, nestedSame, example, exIdx := 0, 0, "", -1
+			for k, i := range nestedIdx {
+				f := strings.Fields(spec[len(sys)+k])
+				fi := strings.Fields(sys[i].impl)
+				if len(f) != 3 || len(fi) != 3 {
+					continue
+				}
+				docTotal := 0
+				if f[1] != "-" {
+					docTotal = len(strings.Split(f[1], ","))
+				}
+				if fi[2] != strconv.Itoa(docTotal) {
+					nestedDiff++
+					if example == "" || len(sys[i].docs) < len(example) {
+						example = fmt.Sprintf("docs=%s query=%s window=%s: total=%s, matching documents=%d", sys[i].docs, sys[i].query, sys[i].w, fi[2], docTotal)
+						exIdx = i
+					}
+				} else {
+					nestedSame++
+				}
+			}
+			if nestedDiff+nestedSame > 0 {
+				orc.Distribution["nested/total=documents"] += nestedSame
+				orc.Distribution["nested/total>documents"] += nestedDiff
+				if nestedDiff > 0 {
+					rep.Note("nested metas: `total` counts matching metas, not matching documents, in %d of %d searches with total over corpora with nested metas (agrees with the model, c02_nested_result / c02_nested_total_witness); smallest example: %s", nestedDiff, nestedDiff+nestedSame, trunc(example))
+					if nestedTotalIsViolation {
+						rep.Violate(vh.Violation{Site: "frac/processor/search.go:iterateEvalTree", Class: "nested-total-counts-metas", What: "total counts the metas of nested documents: " + trunc(example), Replay: sys[exIdx].replay()})
+					}
+				}
+			}
 			for i, c := range sys {
 				kind := c.kind
 				label := c.kind
 				if c.large {
 					label += "-large"
+				}
+				if c.h != nil && hasNested(c.h.docs) {
+					label += "-nested"
 				}
 				tags := append(c.w.tags(), "frac="+label)
 				if nonEmpty(c.impl) {
@@ -1337,6 +1522,10 @@ func main() {
 	rep.AddOracle(orc)
 	rep.Write(o.Out)
 }
+
+// nestedTotalIsViolation: DESIGN section 7 lists "nested documents making total count metas" as not counted as a
+// defect; the oracle records it as a note.  Set to true (and add the known_findings entry) to report it.
+const nestedTotalIsViolation = false
 
 func trunc(s string) string {
 	if len(s) > 300 {
